@@ -150,3 +150,64 @@ func ViewMatrix() *m.Design {
 		Services: []*m.Service{{Name: "viewmatrix", HasHTTP: true, Methods: []*m.Method{get("get", "", "Tree"), get("getalt", "alt", "Tree"), get("getrev", "rev", "Tree"), get("list", "", "TreeCollection")}}},
 		Features: []string{"fixed-design:view-matrix", "result-type", "views", "nested-view-override", "sibling-nested-views", "collection"}}
 }
+
+// GRPCMatrix is a fixed gRPC design crossing the message shapes random designs
+// reach only now and then: every primitive kind as a field, a primitive alias
+// as field / array element / map key / map value, nested arrays and maps,
+// required and optional nested messages, arrays and maps, request metadata of
+// several kinds, shuffled and sparse field numbers.
+func GRPCMatrix() *m.Design {
+	obj := func(fs ...*m.Field) *m.Attr { return &m.Attr{Type: &m.Type{Kind: m.Object, Fields: fs}} }
+	tag := 0
+	fld := func(n string, a *m.Attr, req bool) *m.Field { tag++; return &m.Field{Name: n, Attr: a, Required: req, Tag: tag} }
+	reset := func(start int) { tag = start }
+	arr := func(e *m.Attr) *m.Attr { return &m.Attr{Type: &m.Type{Kind: m.Array, Elem: e}} }
+	mp := func(k, v *m.Attr) *m.Attr { return &m.Attr{Type: &m.Type{Kind: m.Map, Key: k, Val: v}} }
+	prim := m.Prim
+
+	// aliases
+	uuid := &m.UserType{Name: "Ident", Var: "vident", Attr: &m.Attr{Type: &m.Type{Kind: m.String}, V: &m.Validation{MinLen: ip(2), MaxLen: ip(12)}}}
+	score := &m.UserType{Name: "Score", Var: "vscore", Attr: &m.Attr{Type: &m.Type{Kind: m.Int32}, V: &m.Validation{Min: fp(0), Max: fp(100)}}}
+	// nested messages
+	reset(0)
+	addr := &m.UserType{Name: "Address", Var: "vaddr", Attr: obj(fld("street", prim(m.String), true), fld("zip", prim(m.UInt32), false))}
+	reset(10)
+	line := &m.UserType{Name: "Line", Var: "vline", Attr: obj(fld("sku", m.UserRef("Ident"), true), fld("qty", prim(m.Int32), true), fld("weights", arr(prim(m.Float64)), false))}
+
+	reset(0)
+	kinds := &m.Method{Name: "kinds", GRPC: &m.GRPCEndpoint{}, Payload: obj(
+		fld("s", prim(m.String), false), fld("i", prim(m.Int), false), fld("i32", prim(m.Int32), false), fld("i64", prim(m.Int64), true),
+		fld("u", prim(m.UInt), false), fld("u32", prim(m.UInt32), true), fld("u64", prim(m.UInt64), false),
+		fld("f32", prim(m.Float32), false), fld("f64", prim(m.Float64), true), fld("b", prim(m.Boolean), false), fld("raw", prim(m.Bytes), false))}
+	reset(0)
+	kinds.Result = obj(fld("s", prim(m.String), true), fld("i64", prim(m.Int64), false), fld("u32", prim(m.UInt32), false), fld("f64", prim(m.Float64), false), fld("b", prim(m.Boolean), true), fld("raw", prim(m.Bytes), false))
+
+	reset(3)
+	aliases := &m.Method{Name: "aliases", GRPC: &m.GRPCEndpoint{}, Payload: obj(
+		fld("id", m.UserRef("Ident"), true), fld("ids", arr(m.UserRef("Ident")), false), fld("by_id", mp(m.UserRef("Ident"), prim(m.Int64)), false),
+		fld("scores", mp(prim(m.String), m.UserRef("Score")), false), fld("top", m.UserRef("Score"), false), fld("grid", arr(arr(prim(m.Int32))), false))}
+	reset(0)
+	aliases.Result = obj(fld("ids", arr(m.UserRef("Ident")), true), fld("scores", mp(prim(m.String), m.UserRef("Score")), false))
+
+	reset(100)
+	order := &m.UserType{Name: "Order", Var: "vorder", Attr: obj(
+		fld("id", prim(m.String), true), fld("ship_to", m.UserRef("Address"), true), fld("bill_to", m.UserRef("Address"), false),
+		fld("lines", arr(m.UserRef("Line")), true), fld("notes", arr(prim(m.String)), false),
+		fld("attrs", mp(prim(m.String), prim(m.String)), true), fld("extra", mp(prim(m.String), m.UserRef("Address")), false))}
+	place := &m.Method{Name: "place", GRPC: &m.GRPCEndpoint{Metadata: []m.Mapping{{Attr: "id"}}, Message: []string{"ship_to", "lines", "notes"}, RespMessage: []string{"ship_to", "attrs"}},
+		Payload: m.UserRef("Order"), Result: m.UserRef("Order")}
+
+	reset(0)
+	meta := &m.Method{Name: "meta", Payload: obj(
+		fld("token", prim(m.String), true), fld("shard", prim(m.Int64), false), fld("debug", prim(m.Boolean), false), fld("ratio", prim(m.Float64), false),
+		fld("tags", arr(prim(m.String)), false), fld("body", prim(m.String), true), fld("where", m.UserRef("Address"), true)),
+		GRPC: &m.GRPCEndpoint{Metadata: []m.Mapping{{Attr: "token"}, {Attr: "shard"}, {Attr: "debug"}, {Attr: "ratio"}, {Attr: "tags"}}}}
+	reset(0)
+	meta.Result = obj(fld("ok", prim(m.Boolean), true))
+
+	health := &m.Service{Name: "health", HasHTTP: true, Methods: []*m.Method{{Name: "ping", HTTP: &m.HTTPEndpoint{Routes: []m.Route{{Verb: "GET", Path: "/ping"}}}}}}
+	return &m.Design{API: m.API{Name: "grpcmatrix", Title: "gRPC matrix", Server: true},
+		Types:    []*m.UserType{uuid, score, addr, line, order},
+		Services: []*m.Service{{Name: "grpcmatrix", HasGRPC: true, Methods: []*m.Method{kinds, aliases, place, meta}}, health},
+		Features: []string{"fixed-design:grpc-matrix", "alias", "alias-array-element", "alias-map-key", "alias-map-value", "nested-array", "required-nested-message", "required-array", "required-map", "request-metadata", "sparse-tags"}}
+}
